@@ -1,3 +1,4 @@
+#![allow(dead_code)]
 mod vocab; mod tree; mod val; mod call; mod render; mod refsem; mod expect; mod engine; mod meta;
 
 use engine::*;
@@ -7,7 +8,8 @@ use std::io::{BufRead, Write};
 fn open_out(job: &Value, profile: &str) -> Out {
     let f = |k: &str| std::io::BufWriter::new(std::fs::OpenOptions::new().create(true).append(true).open(job[k].as_str().unwrap()).unwrap());
     let hb = job["hb"].as_str().map(|p| std::fs::OpenOptions::new().create(true).write(true).open(p).unwrap());
-    Out { findings: f("out"), events: f("events"), hb, stats: Stats::default(),
+    let unspec = job["unspec"].as_str().map(|p| std::io::BufWriter::new(std::fs::OpenOptions::new().create(true).append(true).open(p).unwrap()));
+    Out { findings: f("out"), events: f("events"), hb, unspec, stats: Stats::default(),
           event_every: job["event_every"].as_u64().unwrap_or(0), event_cap: job["event_cap"].as_u64().unwrap_or(0), profile: profile.to_string() }
 }
 
@@ -21,6 +23,7 @@ fn write_stats(job: &Value, out: &mut Out, done: bool) {
     let _ = writeln!(f, "{}", v);
     let _ = out.findings.flush();
     let _ = out.events.flush();
+    if let Some(w) = &mut out.unspec { let _ = w.flush(); }
 }
 
 fn profile_name() -> &'static str { if cfg!(debug_assertions) { "debug" } else { "release" } }
@@ -42,6 +45,9 @@ fn run_replay(job: &Value) {
         p
     }).collect();
     let phs = placeholder_pool(&e, full_ph);
+    let boundary = job["boundary_pool"].as_bool().unwrap_or(false);
+    let max_assign = job["max_assign"].as_u64().unwrap_or(512) as usize;
+    let only_kinds: Vec<String> = job["only_kinds"].as_array().map(|a| a.iter().filter_map(|x| x.as_str().map(String::from)).collect()).unwrap_or_default();
     let extras: Vec<String> = job["extras"].as_array().map(|a| a.iter().filter_map(|x| x.as_str().map(String::from)).collect()).unwrap_or_default();
     let samples: Vec<Vec<String>> = job["samples"].as_array().map(|a| a.iter().map(|s| s.as_array().unwrap().iter().map(|k| k.as_str().unwrap().to_string()).collect()).collect()).unwrap_or_default();
     let thorough = job["tier"].as_str() == Some("thorough");
@@ -62,6 +68,17 @@ fn run_replay(job: &Value) {
         }
         let b = parse_beh(&bv);
         if !b.kinds.iter().all(|k| k == "bad" || v.has_kind(&e, k)) { continue; }
+        if !only_kinds.is_empty() && !b.kinds.iter().all(|k| only_kinds.contains(k)) { continue; }
+        if boundary {
+            // exhaustive assignment of the boundary pool to the literal positions of accepted sequences
+            if b.verdict != "accept" || !b.renderable || b.numnum { continue; }
+            let nlit = b.kinds.iter().filter(|k| *k == "num").count();
+            let lits = boundary_lits(&e);
+            let asgs = assignments(nlit, lits.len(), max_assign, &mut rng);
+            let bp: Vec<render::Policy> = asgs.into_iter().map(|a| { let mut p = render::Policy::reveal(&e, 0); p.lits = lits.clone(); p.fixed = a; p.sups = vec!["2".into(), "3".into(), "0".into(), "1".into(), "63".into(), "64".into()]; p }).collect();
+            replay_base(&mut out, &v, &e, &b, &bp, &phs, min_ops);
+            continue;
+        }
         let used = replay_base(&mut out, &v, &e, &b, &pols, &phs, min_ops);
         if nsuffix > 0 { replay_reject_suffixes(&mut out, &v, &e, &b, &pols[0], &mut rng, nsuffix); }
         for (k, (r, outs)) in used.iter().enumerate() {
